@@ -146,3 +146,27 @@ def kill_facts(facts: frozenset, defs: set[str]) -> frozenset:
 def eq_lhs(a: str):
     p = _eq_parts(a)
     return p[1] if p else None
+
+
+# ------------------------------------------------------------------------------------------------
+# Reaching definitions
+def reaching_defs(cfg: CFG) -> dict[int, frozenset]:
+    """node id -> frozenset of (variable, defining node id) reaching the *entry* of the node; parameters have no defining node"""
+    def transfer(n: Node, st: frozenset) -> frozenset:
+        ds = node_defs(n)
+        if not ds:
+            return st
+        return frozenset({(v, d) for (v, d) in st if v not in ds} | {(v, n.id) for v in ds})
+
+    ins, _ = forward(cfg, frozenset(), transfer, join=lambda a, b: a | b)
+    return ins
+
+
+def node_containing(cfg: CFG, target: ast.AST) -> Node | None:
+    from .cfg import node_exprs
+    for n in cfg.nodes:
+        for e in node_exprs(n):
+            for x in ast.walk(e):
+                if x is target:
+                    return n
+    return None
